@@ -452,6 +452,28 @@ case("C02", "C02-D15", "mutant", "historical defect D15 re-introduced: fromOrig 
 case("C09", "C09-D16", "mutant", "historical defect D16 re-introduced: index-entry handler reads the entry, then imports it as a blob from the drained stream",
      patch="selftest/regress/D16.diff", expect=[("C09.R7", "imageImportOCIHandleManifest", "entry read")])
 
+# ---------------------------------------------------------------- behaviour-preserving refactorings written by sub-agents (round 1)
+# own property for all of them; other properties where a rule had to be generalised
+import glob as _glob
+_CROSS = {
+    "C07-b1": ["C02"], "C08-b1": ["C03", "C04", "C07"], "C08-b4": ["C03"], "C09-b3": ["C20"], "C10-b4": ["C06"],
+    "C04-b1": ["C03", "C09", "C14"], "C04-b3": ["C03", "C08", "C09", "C14"], "C03-b1": ["C04", "C09", "C14"],
+    "C03-b2": ["C04"], "C03-b3": ["C14"], "C14-b3": ["C03"], "C20-b4": ["C09"],
+}
+for _f in sorted(_glob.glob("/verif/selftest/variants/b/C*-b*.diff")):
+    _name = os.path.basename(_f)[:-5]
+    _own = _name.split("-")[0]
+    _desc = ""
+    try:
+        _desc = (json.load(open(_f[:-5] + ".json")).get("summary") or "")[:140].replace("\n", " ")
+    except Exception:
+        pass
+    for _p in [_own] + _CROSS.get(_name, []):
+        case(_p, _p + "-agent-" + _name, "benign", "agent refactoring " + _name + ": " + _desc, patch="selftest/variants/b/" + _name + ".diff")
+
+case("C17", "C17-D17", "mutant", "historical defect D17 re-introduced: the cancelled waiter searches the queue by the address of its (possibly zero-size) entry",
+     patch="selftest/regress/D17.diff", expect=[("C17.R8", "Acquire", "own position")])
+
 def main():
     bad = 0
     for pid, cases in CASES.items():
